@@ -158,6 +158,7 @@ REGISTRY = {
         "tests": [
             {"name": "TestC19Reducers", "shards": 8, "shards_thorough": 16},
             {"name": "TestC19Linktest", "shards": 8, "shards_thorough": 16},
+            {"name": "TestC19AfterFailedSends", "shards": 4, "shards_thorough": 16},
         ],
         "require": {"c19b:answers": 50, "c19b:role:active": 151, "c19b:role:passive": 148, "c19b:silent": 50, "c19b:suppress:false": 152, "c19b:suppress:true": 147, "c19b:threshold:1": 74, "c19b:threshold:2": 85, "c19b:threshold:3": 68, "c19b:threshold:4": 71, "credited": 7339, "restart": 8242, "suppress:false": 9975, "suppress:true": 10025, "threshold:1": 4121, "threshold:2": 4159, "threshold:3": 3088, "threshold:4": 3008, "threshold:5": 2537, "threshold:6": 3084},
     },
